@@ -1,5 +1,6 @@
 import HpxVerif.Lemmas.CoverLemmas
 import HpxVerif.Props.C15
+import HpxVerif.Lemmas.ConeReal
 
 /-!
 # C06 — cone coverage flags are truthful and the coverage is tight
@@ -11,7 +12,9 @@ Proved:
   flag never comes from the "descend" branch;
 * `cone_output_pack_fixpoint`: the entries returned by `to_bmoc_packing` are a fixed point of the compaction pass
   (C15's `pack_fixpoint`): no four full siblings remain mergeable.
-Conditional (needs the geometric facts of C16): a cell classified full lies inside the cone.  Searched by the oracle:
+* over ℝ (`full_sound`, `cone_scheme_full_inside_real`): a cell flagged full by the descent has every point strictly inside
+  the cone, **given the envelope hypothesis H1** (points of a visited cell within the level's `D` of its centre).
+What remains conditional is H1 itself (the geometric facts of C16).  Searched by the oracle:
 vertices + 8 points per side + centre of every full cell within the radius; centre of every cell within
 `r + 2·(largest centre-to-vertex distance of its depth)`; findings F14, F15 repaired; consequences of F12 in the polar
 caps recorded as known findings.
@@ -39,5 +42,24 @@ theorem cone_emit_rule (target : Nat) (κ : Nat → Nat → Nat → Option Verdi
 
 theorem cone_output_pack_fixpoint (dm : Nat) (l : List Nat) : packPass dm (pack dm l) = pack dm l :=
   C15.pack_fixpoint dm l
+
+/-- **over ℝ, full is sound**: the lower test succeeds only if every point within `D` of the cell centre is strictly
+    within `r` of the cone centre -/
+theorem full_sound (coneLon coneLat r D : ℝ) (c : ℝ × ℝ) (hrpi : r ≤ Real.pi) (hD : 0 ≤ D)
+    (hfull : Num.lt (shs (α := ℝ) coneLon coneLat (Num.cos coneLat) c) (toShsMinMax r D).min = true)
+    (q : ℝ × ℝ) (hq : adist c q ≤ D) : adist (coneLon, coneLat) q < r :=
+  cone_full_sound coneLon coneLat r D c hrpi hD hfull q hq
+
+/-- **over ℝ, full flags are truthful given the envelope hypothesis `H1`**: every point of a cell flagged full by the
+    model's descent is strictly inside the cone -/
+theorem cone_scheme_full_inside_real (cfg : Cfg) (lon lat r : ℝ) (hrpi : r ≤ Real.pi) (dists : List ℝ)
+    (hD : ∀ D ∈ dists, 0 ≤ D) (inCell : Nat → Nat → ℝ × ℝ → Prop) (target ds : Nat)
+    (H1 : ∀ d h c D q, ds ≤ d → Hash.center (α := ℝ) cfg d h = some c → dists[d - ds]? = some D → inCell d h q →
+      adist c q ≤ D)
+    (fuel root : Nat) (out : List Cell)
+    (h : coverRec target (coneClassifier (α := ℝ) cfg lon lat (Num.cos lat) (dists.map (toShsMinMax r))) fuel ds root 0 = some out)
+    (c : Cell) (hc : c ∈ out) (hf : c.full = true) (q : ℝ × ℝ) (hq : inCell c.depth c.hash q) :
+    adist (lon, lat) q < r :=
+  cone_scheme_full_inside cfg lon lat r hrpi dists hD inCell target ds H1 fuel root out h c hc hf q hq
 
 end Hpx.C06
